@@ -27,6 +27,7 @@
 import EasyMl.Model.Transform
 import EasyMl.Spec.Transform
 import Driver.Parse
+import Driver.Surface
 
 namespace Driver.C13
 open EasyMl Driver
@@ -528,6 +529,9 @@ def step (s : State) (toks : List String) : State × String :=
   | _ =>
     match s.tensor with
     | none => (s, "no-tensor")
-    | some t => (s, stepOp t toks)
+    | some t =>
+      match Driver.Surface.step t toks with
+      | some ans => (s, ans)
+      | none => (s, stepOp t toks)
 
 end Driver.C13
